@@ -713,6 +713,41 @@ def composite(u):
             dict(name='fn_composite_alfid3', params=P, result='Z', call=alfid_of)]
 
 
+def did_services(u):
+    """C07 / C01: read_data_by_identifier and write_data_by_identifier with SYMBOLIC identifiers against a configured table
+    {0xF190: 3 bytes, 0x0102: 1 byte, 0xFFFF: reads all that is left}"""
+    import symtrans as st
+    request, interpret = client_env(u)
+    from udsoncan import DidCodec
+
+    class Raw(DidCodec):
+        def __init__(self, n):
+            self.n = n
+
+        def encode(self, v):
+            return v
+
+        def decode(self, b):
+            return b
+
+        def __len__(self):
+            if self.n < 0:
+                raise DidCodec.ReadAllRemainingData
+            return self.n
+
+    def cfg(with_default=False):
+        t = {0xF190: Raw(3), 0x0102: Raw(1), 0xFFFF: Raw(-1)}
+        if with_default:
+            t['default'] = Raw(2)
+        return {'data_identifiers': st.SymDictFork(t)}
+    return [
+        dict(name='fn_rdbi_request_1', params=[('d1', 'Z')], result='Y', call=request(lambda c, d1: c.read_data_by_identifier([d1]), cfg())),
+        dict(name='fn_rdbi_request_2', params=[('d1', 'Z'), ('d2', 'Z')], result='Y', call=request(lambda c, d1, d2: c.read_data_by_identifier([d1, d2]), cfg())),
+        dict(name='fn_rdbi_request_2_default', params=[('d1', 'Z'), ('d2', 'Z')], result='Y',
+             call=request(lambda c, d1, d2: c.read_data_by_identifier([d1, d2]), cfg(True))),
+    ]
+
+
 def pick(names):
     return lambda u: [sp for sp in helpers(u) if sp['name'] in names]
 
@@ -732,6 +767,7 @@ def files(u):
             ('Fn_ClientFormats.v', 'udsoncan/client.py (read_memory_by_address, write_memory_by_address, request_download: the configured server formats applied to the caller\'s MemoryLocation)',
              lambda u: [sp for sp in client_state(u) if 'formats' in sp['name']]),
             ('Fn_Composite.v', 'udsoncan/common/DynamicDidDefinition.py (add, get_alfid), MemoryLocation.py', composite),
+            ('Fn_Did.v', 'udsoncan/client.py (read_data_by_identifier), services/ReadDataByIdentifier.py, common/dids.py', did_services),
             ('Fn_Unlock.v', 'udsoncan/client.py (unlock_security_access, request_seed, send_key; send_request replaced by two scripted replies)', unlock),
             ('Fn_SendRequest.v', 'udsoncan/client.py (send_request, on a symbolic clock)',
              lambda u: [sp for sp in send_request(u) if not any(k in sp['name'] for k in CTX_KINDS)]),
